@@ -280,6 +280,16 @@ def object_level(rep, rng, quick):
                 if np.max(np.abs(mv.norm(squared=True) - (nsq + nsq2))) > 1e-9 * max(1.0, np.max(nsq + nsq2)):
                     rep.violation("multivariate squared norm is not the sum of the component squared norms",
                                   {"X1": C.hexf(X), "X2": C.hexf(X2)})
+                # ... under every option of the norm (integration rule, standardised sampling points)
+                for kwn in ({"method_integration": "simpson"}, {"use_argvals_stand": True},
+                            {"method_integration": "simpson", "use_argvals_stand": True}):
+                    if m < 3 and "method_integration" in kwn:
+                        continue
+                    want = d.norm(squared=True, **kwn) + d2.norm(squared=True, **kwn)
+                    got = mv.norm(squared=True, **kwn)
+                    if np.max(np.abs(got - want)) > 1e-9 * max(1.0, float(np.max(np.abs(want)))):
+                        rep.violation(f"multivariate squared norm {kwn} is not the sum of the component squared norms with the same options",
+                                      {"X1": C.hexf(X), "X2": C.hexf(X2), "x": C.hexf(x), "x2": C.hexf(x2), "options": kwn})
                 rep.case(("mv", X.tobytes(), X2.tobytes()), kind="multivariate-gram")
             except Exception as e:  # noqa: BLE001
                 rep.violation(f"multivariate inner_product raised {type(e).__name__}: {e}",
